@@ -70,6 +70,26 @@ type PropSpec struct {
 	Name   string `json:"name"`             // key into propBuilders
 	Status int    `json:"status"`           // propstat status; 0 = status element missing
 	Absent bool   `json:"absent,omitempty"` // property not present at all
+	// Payload > 0 replaces the content of calendar-data / address-data by hostilePayloads[Payload-1]
+	Payload int `json:"payload,omitempty"`
+}
+
+// content lines on which iCalendar/vCard decoders are known to stumble: a line ending inside a parameter, an
+// unterminated quoted parameter, stray separators, a dangling fold, nothing at all
+var hostilePayloads = []string{"A;B=", "A;B=\"c", "A;B=c,", "A;", ";", ":", "BEGIN:VCALENDAR\r\nA;B=", "BEGIN:VCARD\r\nVERSION:4.0\r\nFN;X=\"", " folded", "", "BEGIN:VCALENDAR\r\nBEGIN:VEVENT\r\nUID;A=b,", "\x00", "BEGIN:VCALENDAR", "END:VCALENDAR"}
+
+func upstreamAccepts(name, text string) (ok bool) {
+	defer func() {
+		if recover() != nil {
+			ok = false
+		}
+	}()
+	if name == "calendar-data" {
+		_, err := ical.NewDecoder(strings.NewReader(text)).Decode()
+		return err == nil
+	}
+	_, err := vcard.NewDecoder(strings.NewReader(text)).Decode()
+	return err == nil
 }
 
 type RespSpec struct {
@@ -169,7 +189,11 @@ func (d Doc) render() string {
 				if _, ok := by[p.Status]; !ok {
 					order = append(order, p.Status)
 				}
-				by[p.Status] = append(by[p.Status], propBuilders[p.Name](r.Coll))
+				el := propBuilders[p.Name](r.Coll)
+				if p.Payload > 0 && p.Payload <= len(hostilePayloads) && (p.Name == "calendar-data" || p.Name == "address-data") {
+					el.Children = []*vx.Node{vx.T(hostilePayloads[p.Payload-1])}
+				}
+				by[p.Status] = append(by[p.Status], el)
 			}
 			for _, st := range order {
 				ps := vdav.PropStat{Code: st, Props: by[st]}
@@ -372,6 +396,11 @@ func docVerdict(m *methodInfo, d Doc, rendered string) (verdict, string) {
 		case r.Href == "two" && r.Status == 0:
 			care = true // several hrefs are only allowed with a response-level status
 			continue
+		case r.Href == "self" && m.name == "carddav.SyncCollection" && r.Status == 0:
+			// the client skips the response for the collection itself before consulting its properties: nothing of
+			// it can come back as data, so whether a bad property status there is reported is not asserted
+			care = true
+			continue
 		case r.Href == "two" && (success(r.Status) || (m.name == "carddav.SyncCollection" && r.Status == 404)):
 			care = true // RFC 4918 allows it; whether a client makes sense of it is not part of the statement
 			continue
@@ -406,6 +435,10 @@ func docVerdict(m *methodInfo, d Doc, rendered string) (verdict, string) {
 			switch {
 			case !ok:
 				return mustFail, "required property " + req + " missing"
+			case p.Status == 200 && p.Payload > 0 && p.Payload <= len(hostilePayloads) && (req == "calendar-data" || req == "address-data") && !upstreamAccepts(req, hostilePayloads[p.Payload-1]):
+				return mustFail, "required property " + req + " holds content the upstream decoder refuses"
+			case p.Status == 200 && p.Payload > 0:
+				care = true
 			case p.Status == 200:
 			case success(p.Status):
 				care = true
@@ -673,6 +706,9 @@ func genDoc(rt *rapid.T, m *methodInfo) Doc {
 		} else {
 			for _, name := range append(append([]string{}, m.required...), m.optional...) {
 				p := PropSpec{Name: name, Status: 200}
+				if (name == "calendar-data" || name == "address-data") && rapid.IntRange(0, 5).Draw(rt, "hostile?") == 0 {
+					p.Payload = 1 + rapid.IntRange(0, len(hostilePayloads)-1).Draw(rt, "payload")
+				}
 				switch rapid.IntRange(0, 5).Draw(rt, "pkind") {
 				case 0:
 					p.Status = rapid.SampledFrom(statuses).Draw(rt, "pstatus")
